@@ -816,18 +816,22 @@ class PolyRelu(PolyTaylorSeries):
 
         def gelu(x):
             return abs(x) * cdf(abs(x) - delta)
-        the_poly = self.taylor_series(
+        result = self.taylor_series(
             gelu,
             degree,
             ensure_bounded=ensure_bounded,
+            return_scale=return_scale,
             max_scale=max_scale,
             chebyshev_basis=chebyshev_basis,
             cheb_samples=cheb_samples)
+        if ensure_bounded and return_scale:
+            the_poly, scale = result
+        else:
+            the_poly = result
         pcoefs = the_poly.coef
         # force odd coefficients to be zero, since the polynomial must be even
         pcoefs[1::2] = 0
         if ensure_bounded and return_scale:
-            scale = max_scale
             return pcoefs, scale
         else:
             return pcoefs
